@@ -175,7 +175,7 @@ Section Aes.
 
   Lemma aes_body_length ck iv p : length (aes_body ck iv p) = aes_total (length p).
   Proof.
-    unfold aes_body. rewrite (cbc_enc_length E Elen).
+    unfold aes_body. rewrite (cbc_enc_length E D Elen Dlen DE).
     pose proof (aes_total_facts (length p)). lia.
   Qed.
 
@@ -218,7 +218,7 @@ Section Aes.
     set (nb := (aes_total (length p) / 16)%nat) in *.
     rewrite (cbc_dec_iv_indep D Dlen ck nb zero16 iv) by (try apply repeat_length; exact Hiv).
     unfold aes_body. fold nb.
-    rewrite (cbc_dec_enc E D Elen DE) by (try exact Hiv; rewrite aes_input_length; exact Hm).
+    rewrite (cbc_dec_enc E D Elen Dlen DE) by (try exact Hiv; rewrite aes_input_length; exact Hm).
     unfold aes_input. rewrite (skipn_app_len 16) by apply repeat_length.
     unfold aes_open_tail.
     rewrite (firstn_app_len 4) by apply le_enc_length.
@@ -266,7 +266,7 @@ Section Aes.
   Proof.
     unfold aes_encrypt, aes_body.
     pose proof (aes_total_facts (length p)) as (Hm & _ & Hnb & _).
-    pose proof (cbc_enc_next_iv E Elen ck (aes_total (length p) / 16) iv (aes_input p) ltac:(lia)) as H.
+    pose proof (cbc_enc_next_iv E D Elen Dlen DE ck (aes_total (length p) / 16) iv (aes_input p) ltac:(lia)) as H.
     destruct (cbc_enc E ck (aes_total (length p) / 16) iv (aes_input p)) as [body iv'].
     cbn [fst snd] in *. rewrite H. f_equal. lia.
   Qed.
